@@ -56,12 +56,18 @@ def run(chk):
     rs = cache.func("Cache.requires_subquery")
     guards, _ = parse_guards(sym, cache, rs)
     rows = [r for r in REQUIRED if (r[0] == "LIMITED" and r[2] in ("Arrange", "Mutate", "Filter")) or (r[0] == "WINDOWED" and r[2] in ("Filter", "Mutate"))]
-    for req in rows:
+    # decided on the typestate exploration of the interpreted cache (every reachable state x arrange / mutate / filter); the
+    # parsed shape of the guards is the fallback
+    from .. import cachesim as _cs
+
+    hazards_decided = _cs.report_hazards(chk, m, "R1", ("arrange", "mut_", "filter"), "ordering / window hazards")
+    for req in rows if not hazards_decided else ():
         atom, scope, verb, needs_fn, why = req
         label = f"{atom}{'(' + scope + ')' if scope else ''} x {verb}{'[window/aggregate fn]' if needs_fn else ''}"
         chk.ob("R1", cache, rs, label, any(covers(g, req) for g in guards),
                f"no guard covers {label}: {why} - window functions / slices would see other rows than on Polars")  # fmt: skip
-    chk.floor("R1", "hazard rows about ordering and windows", len(rows), 5)
+    if not hazards_decided:
+        chk.floor("R1", "hazard rows about ordering and windows", len(rows), 5)
 
     # ---- R2 SQL order composition
     sib = get_siblings(chk)
@@ -91,14 +97,17 @@ def run(chk):
                f"SQL ORDER BY list after `{v.name}` is {S.show(got)}, expected {S.show(want)} "
                "(a later arrange takes priority, the earlier order breaks ties; summarize / union drop the order)")  # fmt: skip
     chk.floor("R2", "verbs", n2, 12)
-    # ORDER BY list is rendered in list order
-    cq = cfg.module.func("SqlImpl.compile_query")
-    ob = [c for c in calls_in(cq) if isinstance(c.func, ast.Attribute) and c.func.attr == "order_by"]
-    ok = bool(ob) and all("for ord in query.order_by" in norm(c) or "query.order_by" in norm(c) for c in ob) and not any(
-        "reversed" in norm(c) or "sorted" in norm(c) for c in ob
-    )
-    chk.ob("R2", cfg.module, cq, "compile_query renders query.order_by in list order", ok,
-           "compile_query does not pass the ORDER BY keys in priority order")  # fmt: skip
+    # ORDER BY list is rendered in list order: compile_query interpreted (pipesim); the shape of the call is the fallback
+    from .. import pipesim as _psq
+
+    if not _psq.report_compile_query(chk, m, "R2", ("order",), floor=8):
+        cq = cfg.module.func("SqlImpl.compile_query")
+        ob = [c for c in calls_in(cq) if isinstance(c.func, ast.Attribute) and c.func.attr == "order_by"]
+        ok = bool(ob) and all("for ord in query.order_by" in norm(c) or "query.order_by" in norm(c) for c in ob) and not any(
+            "reversed" in norm(c) or "sorted" in norm(c) for c in ob
+        )
+        chk.ob("R2", cfg.module, cq, "compile_query renders query.order_by in list order", ok,
+               "compile_query does not pass the ORDER BY keys in priority order")  # fmt: skip
     # Polars: stable sort
     pol = repo.mod("backend.polars")
     pcfg = sib.cfgs["polars"]
@@ -117,7 +126,21 @@ def run(chk):
     _flags_polars_sort(chk, pol, sort, items)
     _marker_peeling(chk, repo, sym)
     _dedup_interpreted(chk, repo)
-    _polars_window_order(chk, repo, sym)
+    # R8: the Polars ColFn branch interpreted on window-function stubs (polsim); the partial evaluation of its statements is
+    # the fallback
+    from .. import polsim as _pol
+    from ..interp import PyRaise as _PR8, SymbolicBranch as _SB8
+    from .c17 import m_types_env as _mte8
+
+    polm = repo.mod("backend.polars")
+    try:
+        res_w = _pol.window_scenarios(_pol.PolWorld(repo, _mte8(m)))
+        for desc, ok_, detail in res_w:
+            chk.ob("R8", polm, polm.func("compile_col_expr"), f"polars window function interpreted: {desc}", ok_, detail)
+        chk.floor("R8", "Polars window scenarios", len(res_w), 8)
+    except (AnalysisError, _SB8) as e:
+        chk.undecided.append(f"R8: Polars compile_col_expr could not be interpreted on window stubs ({str(e)[:140]})")
+        _polars_window_order(chk, repo, sym)
 
     # ---- R4
     _grouping_injection(chk, repo)
@@ -384,11 +407,16 @@ def _dedup_interpreted(chk, repo):
     sql = repo.mod("backend.sql")
     f = sql.func("dedup_order_by")
     stub = ast.parse("class UnaryExpression:\n    element: object = None\n    modifier: object = None\nclass Column:\n    name: object = None\nclass Label:\n    name: object = None\n    element: object = None\n")
-    env: dict = {}
-    it = Interp(sql, env)
+    # the module's own environment (helpers of dedup_order_by defined next to it resolve), SQLAlchemy replaced by stub classes
+    from ..program import Program
+    from .c17 import m_types_env
+
+    prog = Program(repo, m_types_env(model_of(chk)), primary="backend.sql")
+    env = prog.env_of(sql)
+    it = prog
     for c in stub.body:
         c.decorator_list = [ast.Name(id="dataclass", ctx=ast.Load())]
-        env[c.name] = it.make_class(c, env)
+        env[c.name] = prog.make_class(c, env)
         env[c.name].is_dataclass = True
     env["sqa"] = _ModuleNS({"UnaryExpression": env["UnaryExpression"], "ColumnElement": env["Column"], "Label": env["Label"], "Column": env["Column"]})
     keys = []
@@ -413,7 +441,7 @@ def _dedup_interpreted(chk, repo):
     for key in keys:
         for mods in ((), ("desc",), ("desc", "nulls_last")):
             variants.append((key, mods))
-    fn = Func(f, env, it)
+    fn = env["dedup_order_by"]
     n = 0
     bad = []
     for k in (1, 2, 3):
@@ -427,7 +455,7 @@ def _dedup_interpreted(chk, repo):
                     want.append(t_)
             n += 1
             try:
-                got = list(it.call(fn, [list(terms)], {}, f, env))
+                got = list(prog.call(fn, [list(terms)]))
             except PyRaise as p_:
                 bad.append((combo, f"raises {p_.name}"))
                 continue
